@@ -928,6 +928,11 @@ def _run_relaunch(cfg: Dict[str, Any], tmp: str, pids: List[int]) -> Dict[str, A
                     rec.setdefault("launch_errors", []).append([rec["done"], _exc_name(e)])
                 rec["done"] += 1
                 rec["snapshots"].append(snapshot(params))
+                if rec["snapshots"][-1] != rec["snapshots"][0] or rec.get("launch_errors"):
+                    # already a finding; launching again from an object that is no longer what the loader returned
+                    # (or after a failed launch) would only add collateral damage and the library's long time-outs
+                    rec["stopped_early"] = True
+                    break
 
     with _parent_env():
         from chuk_mcp.mcp_client.host.environment import get_default_environment
@@ -973,7 +978,7 @@ def _run_relaunch(cfg: Dict[str, Any], tmp: str, pids: List[int]) -> Dict[str, A
         else:
             continue
         break
-    if len(launches) != k and not timed_out and "error" not in rec:
+    if len(launches) != k and not timed_out and "error" not in rec and not rec.get("stopped_early"):
         add({"class": "launch-count", **tag, "launches": min(len(launches), 4)}, f"{len(launches)} launches recorded for {k} connections")
     exp_argv = [os.fsencode(x).hex() for x in sp["exp_argv"]]
     n_hs = 0
